@@ -10,6 +10,8 @@
   judges the reaction to one inbound message it only judges *clean* messages with a single defect.
 -/
 import Qfx.Spec.SessionTyped
+import Qfx.Spec.SessionTypedC02
+import Qfx.Spec.SessionTypedC08
 namespace Qfx.SessSpec
 open Qfx Qfx.Sess
 
@@ -118,6 +120,8 @@ structure M where
   last : Option Int := none          -- last delivered number in this epoch
   expectInc : Bool := false
   g1 : G1 := G1.init 1                -- the typed C01 monitor of the theorems (Spec/SessionTyped.lean), run on the same items
+  g2 : Qfx.Sess.C02.G2 := Qfx.Sess.C02.G2.init 1      -- the typed sequential C02 monitor (theorem C02_seq)
+  g8 : Qfx.Sess.G8 := {}                               -- the typed C08 automaton (theorem C08_trace_shape)
   -- C08
   connOpen : Bool := false
   wiresOnConn : Nat := 0
@@ -125,6 +129,7 @@ structure M where
   handshake : Bool := false
   cbLoggedOn : Bool := false
   afterLogoutCb : Bool := false
+  sentResetOnConn : Bool := false    -- C07: we wrote a Logon carrying 141=Y on the current connection
   -- C04 / C20
   fromLogonGap : Bool := false
   hb : Int := 0
@@ -385,6 +390,14 @@ def c07 (ms : M) (e : Event) : List String :=
          | none => ["C07.reset_logon_reply_wrong"])
       else []
     | none => []
+  -- a received reset Logon that is not the echo of ours resets both counters
+  let badHonour := match inb with
+    | some m =>
+      if kindOf m == "A" && fget m.f 141 == some "Y" && accepted && (viewOf cfg m).clean && !ms.sentResetOnConn
+         && !(wires e.items).any (fun w => w.1 == "A" && fget w.2.2 141 == some "Y" && cfg.initiator) then
+        (if resets.isEmpty then ["C07.reset_logon_not_honoured"] else [])
+      else []
+    | none => []
   -- SequenceReset can only move forward
   let badBack := e.items.flatMap fun i => match i with
     | .store ["setT", _] => []
@@ -408,7 +421,7 @@ def c07 (ms : M) (e : Event) : List String :=
       | .store ("save" :: _) => s + 1
       | .store ["incS"] => s + 1
       | _ => s) ms.S) != e.after.S then ["C07.untracked_sender_change"] else []
-  badReset ++ bad40 ++ badEcho ++ badBack ++ badSeqReset ++ badS
+  badReset ++ bad40 ++ badEcho ++ badHonour ++ badBack ++ badSeqReset ++ badS
 
 /-! ## C08: the shape of a connection -/
 
@@ -562,7 +575,7 @@ def storedAfter (ms : M) (e : Event) : List (Int × String × Bool × Option Str
 def monitorStep (ms : M) (e : Event) : M × List String :=
   match e.op with
   | .cfg c s0 t0 =>
-    ({ cfg := c, started := true, prev := e.after, T := t0, S := s0, g1 := G1.init t0, hb := if c.initiator || c.hbOverride then c.hb else 0 }, [])
+    ({ cfg := c, started := true, prev := e.after, T := t0, S := s0, g1 := G1.init t0, g2 := Qfx.Sess.C02.G2.init s0, hb := if c.initiator || c.hbOverride then c.hb else 0 }, [])
   | _ =>
     let panic := if e.after.status == "panic" then ["C09.panic{op=" ++ opName e.op ++ "}"] else []
     if e.after.status == "panic" then (ms, panic) else
@@ -576,10 +589,19 @@ def monitorStep (ms : M) (e : Event) : M × List String :=
     -- the theorem's own predicate (C01_inorder_exactly_once) on the implementation's observations
     let g1' := (e.items.filterMap toObs).foldl g1Step ms.g1
     let b01 := b01 ++ (if ms.g1.ok && !(g1'.ok && !g1'.expectInc) && b01.isEmpty then ["C01.theorem_monitor_rejects"] else [])
+    -- the typed monitors of C02_seq and C08_trace_shape on the same observations
+    let obsT := e.items.filterMap toObs
+    let g2' := obsT.foldl (Qfx.Sess.C02.g2Step ms.cfg.persist) ms.g2
+    let b02 := if ms.g2.ok && !g2'.ok then ["C02.theorem_monitor_rejects{layer=sequential}"] else []
+    let g8a := match e.op with
+      | .connect => if e.after.status == "ok" then Qfx.Sess.c8Step ms.g8 .connected else ms.g8
+      | _ => ms.g8
+    let g8' := (obsT.map Qfx.Sess.Obs8.obs).foldl Qfx.Sess.c8Step g8a
     let b04 := if drained then [] else c04 ms e
     let b06 := if drained then [] else c06 ms e
     let b07 := if drained then [] else c07 ms e
     let s08 := c08 ms e
+    let b08t := if ms.g8.ok && !g8'.ok && s08.bad.isEmpty then ["C08.theorem_monitor_rejects"] else []
     -- heartbeat interval in force after this event: an acceptor takes 108 from an accepted Logon unless overridden
     let hb' := match inboundOf ms e.op with
       | some m => if kindOf m == "A" && !ms.cfg.initiator && !ms.cfg.hbOverride && (e.items.contains .onLogon || (e.items.any fun i => match i with | .wire "A" _ _ => true | _ => false)) then
@@ -595,12 +617,15 @@ def monitorStep (ms : M) (e : Event) : M × List String :=
       | _ => ms.inbox
     let inbox' := if e.after.ib == 0 then [] else inbox'
     let ms' : M := { ms with
-      prev := e.after, T := t', S := e.after.S, last := last', expectInc := false, g1 := g1',
+      prev := e.after, T := t', S := e.after.S, last := last', expectInc := false, g1 := g1', g2 := g2', g8 := g8',
       connOpen := s08.connOpen, wiresOnConn := s08.wiresOnConn, sentLogout := s08.sentLogout, handshake := s08.handshake,
       cbLoggedOn := s08.cbLoggedOn, afterLogoutCb := s08.afterLogoutCb,
+      sentResetOnConn :=
+        (match e.op with | .connect => (if e.after.status == "ok" then false else ms.sentResetOnConn) | _ => ms.sentResetOnConn)
+        || (wires e.items).any (fun w => w.1 == "A" && fget w.2.2 141 == some "Y"),
       fromLogonGap := if ms.prev.st == "Logon" && inRecovery e.after.st then true
                       else if !inRecovery e.after.st then false else ms.fromLogonGap,
       hb := hb', inbox := inbox', stored := storedAfter ms e }
-    (ms', panic ++ b01 ++ b03 ++ b04 ++ b06 ++ b07 ++ s08.bad ++ b20)
+    (ms', panic ++ b01 ++ b02 ++ b03 ++ b04 ++ b06 ++ b07 ++ s08.bad ++ b08t ++ b20)
 
 end Qfx.SessSpec
